@@ -14,10 +14,44 @@ EXHAUSTIVE = {"quick": True, "thorough": True}
 RULE = ("exhaustive: every DAG on <=4 (quick) / <=5 (thorough) labelled nodes x every start node x every "
         "observed subset (active trails, d-connection to every end node); plus random DAGs up to 10 nodes with "
         "latent subsets, observed passed as list/set/tuple/single node, node names str/int/tuple/mixed incl. "
-        "falsy names 0 and ''; minimal d-separators for every non-adjacent pair, also for every DAG on <=4 nodes x "
-        "latent subsets (all; size<=2 at n=4 in quick; 2 random subsets per 5-node DAG in thorough); Markov blanket, moral graph, "
-        "ancestral graph, local and global independence listings.  A case is non-trivial when the graph has "
-        ">=1 edge; distinct = distinct (kind, graph, query) after canonicalisation")
+        "falsy names 0 and '', and strings that are substrings of each other or words the code uses (x1/x10, G/G2, "
+        "up/down/weight/None); minimal d-separators for every non-adjacent pair, also for every DAG on <=4 nodes x "
+        "latent subsets (all; size<=2 at n=4 in quick; 2 random subsets per 5-node DAG in thorough) together with "
+        "include_latents in {True, False} for every start x observed subset (observed start nodes included); Markov "
+        "blanket, moral graph, immoralities, ancestral graph, local and global independence listings, on DAG AND "
+        "BayesianNetwork objects (every DAG on <=4 nodes as a BayesianNetwork), built through add_node/add_edges_from, "
+        "the constructor (ebunch, latents) or weighted add_nodes_from/add_edges_from.  "
+        "Generalisation classes (notes/GENERALISATION_CHECKLIST.md): "
+        "A object sessions (gsess, dbn, nb, session): ONE DAG / BayesianNetwork / DynamicBayesianNetwork / NaiveBayes "
+        "object, every route asked with FIXED observed sets and end-point pairs, then an edit through every own or "
+        "networkx-inherited mutator (add_node(s), add_edge(s), add_weighted_edges_from, update, nx.add_path, remove_edge, "
+        "remove_edges_from, remove_node, remove_nodes_from, clear_edges, clear + refill, do(inplace=True/False), copy + edit "
+        "of the copy, direct edits of .latents, edge reversal / count-preserving swaps, edits aimed at the ancestors of a "
+        "fixed observed set), then the same questions again; oracle = the model on the CURRENT nodes and edges, the "
+        "tracked state itself cross-checked against the model's edit functions (c08_edit).  "
+        "B argument purity: observed / variables / nodes / ebunch / latents / do-nodes arguments compared with a snapshot, "
+        "the same observed object reused for all starts.  C result independence: returned dicts, sets, lists, moral "
+        "graphs, Independencies objects are vandalised and the question asked again; successive results are distinct "
+        "objects; a copy's edit does not reach the original.  E names: above.  G sizes: 1..12 nodes, edgeless and "
+        "emptied graphs, isolated nodes, empty start / node / observed lists, duplicates in observed and start lists, "
+        "observed start and end nodes.  J variants: include_latents, inplace, every observed form, single / list / tuple "
+        "of variables, weights.  K rejected calls: unknown node as a LATER member of observed / variables / nodes, adjacent "
+        "end points, cyclic or self-loop edges (BayesianNetwork, DBN), backward / slice-gap DBN edges, do of an unknown "
+        "node, removal of a missing edge / node, add_edges_from with a later cyclic edge (the earlier edge stays): all "
+        "must raise, and the answers afterwards are the model's on the resulting state.  L orders: shuffled node / edge "
+        "insertion, shuffled observed order, PYTHONHASHSEED 0-3 (quick) / 0-7 (thorough).  "
+        "Not applicable to this property: D pandas frames, F state names, H magnitudes (no data, states or numbers enter any "
+        "route; edge and node weights are exercised and must be ignored), I backends (no tensor operation).  "
+        "Domain limits of the objects (documented API, see DESIGN.md section 0): IndependenceAssertion takes non-empty string "
+        "variables (listings only with such names; DynamicNode variables are out of its domain, so DBN listings are not "
+        "compared); a tuple as a single observed / variables argument is a collection; get_immoralities sorts each pair, so it "
+        "is asked only when the names sort; a DBN is given an observed SET only when it has not exactly two members and a "
+        "single observed node as a tuple; NaiveBayes' closed-form overrides are compared on single-character names, start not "
+        "observed, >=2 features for local_independencies (outside that they are undefined or wrong: reported, not listed).  "
+        "DynamicBayesianNetwork.get_markov_blanket is compared with the code's own augmentation rule and, while the network is "
+        "regular, with the model's blanket in the network unrolled to three slices plus the node itself (as coded).  "
+        "A case is non-trivial when the graph has "
+        ">=1 edge (sessions: >=1 edit); distinct = distinct (kind, graph, query) after canonicalisation")
 TRUSTED_BASE = ["networkx DiGraph storage (predecessors/successors/subgraph), dfs_preorder_nodes",
                 "python set iteration order is a free order parameter of the model (results compared as sets)"]
 ASSUMPTIONS = ["node names are interned to nat identifiers by the harness; the model never sees names"]
@@ -691,6 +725,7 @@ class Sess(object):
         self.latset = set(lat)                # as coded: DAG.remove_node leaves the name in .latents
         self.history = []
         self.fixed = []
+        self.fixed_pairs = []
         self.memo = {}
         self.idx = {repr(nm): i for i, nm in self.names.items()}
         self.nope = "__nope__"
@@ -879,10 +914,9 @@ class Sess(object):
             if any(a is b_ for i_, a in enumerate(vals) for b_ in vals[i_ + 1:]):
                 return bad("result-not-independent:active_trail_nodes-shared-sets", self.where(stage=stage, starts=starts))
         # is_dconnected (start or end may be observed: answer False)
-        for _ in range(4):
-            if len(self.nodes) < 2:
-                break
-            a, b_ = rng.sample(self.nodes, 2)
+        cur = set(self.nodes)
+        for a, b_ in [p_ for p_ in self.fixed_pairs if p_[0] in cur and p_[1] in cur] + \
+                [tuple(rng.sample(self.nodes, 2)) for _ in range(4 if len(self.nodes) >= 2 else 0)]:
             zo2 = self.zobj(Z, rng.choice(self.forms_for(Z)))
             d = g.is_dconnected(self.nm(a), self.nm(b_), observed=zo2)
             if d is not (b_ in self.atn(a, Z)):
@@ -969,7 +1003,7 @@ class Sess(object):
                 if not (a, b_) == tuple(sorted((a, b_))):
                     return bad("impl!=model:immoralities-pair-not-sorted", self.where(stage=stage, pair=[repr(a), repr(b_)]))
             r.add((JUNK, JUNK))
-            tags.append("immoralities=%d" % len(mi))
+            tags.append("immoralities=" + ("0" if not mi else ("1-3" if len(mi) <= 3 else ">=4")))
         # several variables in one local_independencies call (list / tuple of variables)
         if _strnames([self.nm(i) for i in self.nodes]) and len(self.nodes) >= 2 and not self.skip_local:
             vs2 = rng.sample(self.nodes, rng.randint(2, min(4, len(self.nodes))))
@@ -998,7 +1032,9 @@ class Sess(object):
         eset = set(self.edges)
         if len(self.nodes) < 2:
             return None
-        pairs = [tuple(rng.sample(self.nodes, 2)) for _ in range(npairs)]
+        cur = set(self.nodes)
+        pairs = [p_ for p_ in self.fixed_pairs if p_[0] in cur and p_[1] in cur] + \
+                [tuple(rng.sample(self.nodes, 2)) for _ in range(npairs)]
         for x, y in pairs:
             adjacent = (x, y) in eset or (y, x) in eset
             try:
@@ -1039,8 +1075,14 @@ class Sess(object):
         g = self.g
         lat = self.lat()
         incl = rng.random() < 0.5
+        # asked twice, the first answer vandalised in between (result independence)
+        first = g.get_independencies(include_latents=incl)
+        del first.independencies[:]
+        second = g.get_independencies(include_latents=incl)
+        if second is first:
+            return bad("result-not-independent:get_independencies", self.where(stage=stage))
         got = set()
-        for a in g.get_independencies(include_latents=incl).get_assertions():
+        for a in second.get_assertions():
             got.add((frozenset(self.ident(u) for u in a.event1), frozenset(self.ident(u) for u in a.event2),
                      frozenset(self.ident(u) for u in a.event3)))
         exp = set()
@@ -1139,6 +1181,7 @@ def run_gsess(case, drv):
     n = case["n"]
     tags = ["gsess cls=%s" % case["cls"], "gsess n=%d" % n, "style=" + case["style"], "route=" + case["route"]]
     S.fixed = [sorted(rng.sample(range(n), rng.randint(1, min(3, n)))) for _ in range(rng.randint(2, 3))]
+    S.fixed_pairs = [tuple(rng.sample(range(n), 2)) for _ in range(3)]
     small = n <= 5 and _strnames(names)
     b = S.q_round(rng, "initial", tags, indep=small and rng.random() < 0.5)
     if b:
@@ -1652,6 +1695,7 @@ def run_dbn(case, drv):
     S.nodes, S.edges, S.varnames = nodes, edges, varnames        # shared with note_add / ebunch_of
     tags = ["dbn vars=%d" % k, "dbn route=" + route]
     S.fixed = [sorted(rng.sample(nodes, rng.randint(1, min(3, len(nodes))))) for _ in range(2)]
+    S.fixed_pairs = [tuple(rng.sample(nodes, 2)) for _ in range(2)] if len(nodes) >= 2 else []
     b = S.q_round(rng, "initial", tags)
     if b:
         return b
